@@ -497,6 +497,47 @@ func (c *Ctx) copyRule(fname, msg string) {
 	}
 	written := map[string]map[string]bool{} // result field -> source fields
 	wpos := map[string]token.Pos{}
+	condOn := map[string]map[string]bool{} // result field -> source fields its stores are conditional on
+	condText := map[string]string{}
+	allocGuard := map[string]ast.Expr{} // result field -> guard of a store of a fresh empty container
+	noteConds := func(field string, at ast.Node) {
+		chain := enclosing(d.fd.Body, at)
+		for i, x := range chain {
+			var conds []ast.Expr
+			switch s := x.(type) {
+			case *ast.IfStmt:
+				if i+1 < len(chain) && (chain[i+1] == ast.Node(s.Body) || (s.Else != nil && chain[i+1] == ast.Node(s.Else))) {
+					conds = append(conds, s.Cond)
+				}
+			case *ast.SwitchStmt:
+				if s.Tag != nil {
+					conds = append(conds, s.Tag)
+				}
+				// the clause reached, and every clause before it (they must have failed)
+				for _, cc := range s.Body.List {
+					cl, isCl := cc.(*ast.CaseClause)
+					if !isCl {
+						continue
+					}
+					conds = append(conds, cl.List...)
+					if i+2 < len(chain) && chain[i+2] == ast.Node(cl) {
+						break
+					}
+				}
+			}
+			for _, ce := range conds {
+				for f := range sources(ce) {
+					if condOn[field] == nil {
+						condOn[field] = map[string]bool{}
+					}
+					condOn[field][f] = true
+					if f != field && condText[field] == "" {
+						condText[field] = types.ExprString(ce)
+					}
+				}
+			}
+		}
+	}
 	note := func(field string, val ast.Node, pos token.Pos) {
 		if written[field] == nil {
 			written[field] = map[string]bool{}
@@ -531,10 +572,53 @@ func (c *Ctx) copyRule(fname, msg string) {
 						val = as.Rhs[i]
 					}
 					note(f, val, as.Pos())
+					noteConds(f, as)
+					// a fresh empty container stored under a guard
+					if len(as.Lhs) == len(as.Rhs) {
+						isAlloc := false
+						switch r := as.Rhs[i].(type) {
+						case *ast.CompositeLit:
+							isAlloc = len(r.Elts) == 0
+						case *ast.CallExpr:
+							if id, isId := r.Fun.(*ast.Ident); isId && id.Name == "make" {
+								isAlloc = true
+							}
+						}
+						if isAlloc {
+							chain := enclosing(d.fd.Body, as)
+							for j := len(chain) - 1; j >= 0; j-- {
+								if ifs, isIf := chain[j].(*ast.IfStmt); isIf {
+									allocGuard[f] = ifs.Cond
+									break
+								}
+							}
+						}
+					}
 				}
 			}
 			return true
 		})
+	}
+	// which list/map fields does the equality encoding of this message test against nil?
+	nilSensitive := map[string]bool{}
+	if ed := c.declQuiet(strings.TrimSuffix(fname, ".Copy") + ".flatString"); ed != nil {
+		if er, _ := recvAndParam(ed); er != nil {
+			ast.Inspect(ed.fd.Body, func(n ast.Node) bool {
+				be, ok := n.(*ast.BinaryExpr)
+				if !ok || (be.Op != token.NEQ && be.Op != token.EQL) || !isNilIdent(ed.pkg, be.Y) {
+					return true
+				}
+				if f, isF := fieldOf(ed.pkg, be.X, er); isF {
+					if t := ed.pkg.TypesInfo.TypeOf(be.X); t != nil {
+						switch t.Underlying().(type) {
+						case *types.Slice, *types.Map:
+							nilSensitive[f] = true
+						}
+					}
+				}
+				return true
+			})
+		}
 	}
 	for _, f := range fields {
 		name := f.Name()
@@ -551,10 +635,26 @@ func (c *Ctx) copyRule(fname, msg string) {
 			c.bad(R, construct, pos, fmt.Sprintf("the copy's %s is filled from %v, not from the source's %s", name, keysOf(srcs), name))
 		case len(srcs) > 1:
 			c.bad(R, construct, pos, fmt.Sprintf("the copy's %s derives from several source fields %v", name, keysOf(srcs)))
+		case condText[name] != "":
+			c.bad(R, construct, pos, fmt.Sprintf("the copy's %s is written only where `%s` decides so — a condition on other fields of the source (in a tagless switch every clause also requires the earlier ones to have failed): a source that has %s and those other fields set is copied without %s", name, condText[name], name, name))
+		case nilSensitive[name] && allocGuard[name] != nil && !isNilTestOf(d, allocGuard[name], src, name):
+			c.bad(R, construct, pos, fmt.Sprintf("the copy's %s is allocated under `%s`, but the equality encoding of %s distinguishes a nil %s from an allocated empty one (it tests `%s != nil`): an allocated empty %s is copied as nil and the copy does not compare equal to its source", name, types.ExprString(allocGuard[name]), msg, name, name, name))
 		default:
 			c.ok(R, construct, pos, "result."+name+" ← source."+name)
 		}
 	}
+}
+
+// isNilTestOf: cond is `src.F != nil` (possibly conjoined with other tests of the same field).
+func isNilTestOf(d *declInfo, cond ast.Expr, src types.Object, field string) bool {
+	for _, cj := range conjuncts(cond) {
+		if be, ok := ast.Unparen(cj).(*ast.BinaryExpr); ok && be.Op == token.NEQ && isNilIdent(d.pkg, be.Y) {
+			if f, isF := fieldOf(d.pkg, be.X, src); isF && f == field {
+				return true
+			}
+		}
+	}
+	return false
 }
 
 func keysOf(m map[string]bool) []string {
